@@ -66,6 +66,22 @@ func schemaKey(m *mSchema) string {
 // namespace separator is dropped and case is ignored (ab.cd / abCd). Used only to prioritise stimuli.
 func sepCaseTwins(m *mSchema) bool { return len(twinNames(m)) > 0 }
 
+// deconfChain: a field whose name is an earlier field's name plus "0" (any case of the first letter):
+// the name the deconflicter hands to the earlier one is then requested again. Prioritises stimuli only.
+func deconfChain(m *mSchema) bool {
+	for i := range m.Schema {
+		fs := m.Schema[i].Fields
+		for a := range fs {
+			for b := range fs {
+				if a != b && strings.EqualFold(fs[b].N, fs[a].N+"0") {
+					return true
+				}
+			}
+		}
+	}
+	return false
+}
+
 func twinNames(m *mSchema) []string {
 	var r []string
 	flat := func(ns, n string) string { return strings.ToLower(ns + n) }
@@ -87,6 +103,16 @@ func kindsOf(m *mSchema) []string {
 	set := map[string]bool{}
 	for _, t := range twinNames(m) {
 		set[t+":"+m.Schema[0].ctorName()+"+"+m.Schema[len(m.Schema)-1].ctorName()] = true
+	}
+	for i := range m.Schema {
+		fs := m.Schema[i].Fields
+		for a := range fs {
+			for b := range fs {
+				if a != b && strings.EqualFold(fs[b].N, fs[a].N+"0") {
+					set[fmt.Sprintf("twin-deconf:%s@%d+%s@%d", fs[a].N, a, fs[b].N, b)] = true
+				}
+			}
+		}
 	}
 	for _, c := range m.Schema {
 		set["c:"+c.Kind] = true
@@ -191,7 +217,7 @@ func runC14(c *core.Ctx) error {
 	for _, cc := range []coreCfg{
 		{"A", c14CfgF(1, 2, `{"a"}`, "MCNameMenuOne", "MCFieldNamesTiny", "MCKindsCore", "{0}", `{}`, "MCMutationsNone", `{"plain"}`, `{"get"}`), 60, 1000, nil},
 		{"B", c14CfgF(2, 1, `{"a", "b"}`, "MCNameMenuOne", "MCFieldNamesTiny", "MCKindsTmpl", "{0}", `{}`, "MCMutationsNone", `{"plain"}`, `{}`), 40, 800, nil},
-		{"D", c14CfgF(1, 3, `{"a"}`, "MCNameMenuOne", "MCFieldNamesDeconf", "MCKindsInt", "{0}", `{}`, "MCMutationsNone", `{"plain"}`, `{}`), 80, 600, nil},
+		{"D", c14CfgF(1, 3, `{"a"}`, "MCNameMenuOne", "MCFieldNamesDeconf", "MCKindsInt", "{0}", `{}`, "MCMutationsNone", `{"plain"}`, `{}`), 40, 600, deconfChain},
 		{"S", with(c14CfgF(2, 0, `{"", "ab", "a", "aB"}`, "MCNameMenuSep", "MCFieldNamesTiny", "MCKindsNone", "{0}", `{}`, "MCMutationsNone", `{"plain"}`, `{"abCd"}`),
 			"UNIONMENU", "MCUnionMenuNone"), 10, 1500, sepCaseTwins},
 		{"T", with(c14CfgF(2, 1, `{"x"}`, "MCNameMenuOne", "MCFieldNamesOne", "MCKindsInt", "{0}", `{}`, "MCMutationsNone", `{"tl2file", "tl2filewl"}`, `{"get"}`),
